@@ -1,12 +1,12 @@
 package flood
 
 import (
-	"sync"
 	"fmt"
 	"net"
 	"reflect"
 	"sort"
 	"strings"
+	"sync"
 	"time"
 
 	"github.com/postalsys/muti-metroo/internal/identity"
@@ -36,7 +36,7 @@ type vpFrame struct {
 }
 
 type vpSim struct {
-	mu    sync.Mutex // guards the observation fields when deliveries run concurrently (C11 concurrent part)
+	mu      sync.Mutex // guards the observation fields when deliveries run concurrently (C11 concurrent part)
 	nodes   []*vpNode
 	adj     map[[2]int]bool      // undirected, stored both ways
 	queues  map[[2]int][]vpFrame // directed from->to
@@ -50,7 +50,7 @@ type vpSim struct {
 	dropped    []string // frames refused by Frame.Encode (too large) etc.
 	decodeErrs []string
 	log        []string
-	fwdToSeen  []string // forwarded to a node already in the seen-by list
+	fwdToSeen  []string       // forwarded to a node already in the seen-by list
 	gotAt      map[string]int // "node origin seq" -> number of deliveries of that announcement to the node (accepted or not)
 }
 
